@@ -27,6 +27,23 @@
  "native": false
 }
 */
+/* VERIF-UNIT
+{
+ "name": "move_ext3_journal_ro",
+ "props": ["C13"],
+ "level": "P",
+ "tier": "quick",
+ "harness": "h_move_ro",
+ "includes": ["e2fsck"],
+ "sources": ["lib/ext2fs/io_manager.c"],
+ "unwind": 2,
+ "unwind_reason": "prefix unit: with E2F_OPT_READONLY no loop is reachable on the tree (journal_names / group loops are behind the guard)",
+ "functions": ["e2fsck/journal.c:e2fsck_move_ext3_journal"],
+ "assumes": ["E2F_OPT_READONLY is set; superblock, fs->flags, other options arbitrary",
+	     "callees behind the guard (ext2fs_lookup, ext2fs_write_inode, ext2fs_new_inode ... in other files) have no body here: DFCC's 'undefined function should be unreachable' obligations prove they are not reached; ext2fs_read_inode is a counting stub"],
+ "native": false
+}
+*/
 #include "ro_jnl_common.h"
 #include "e2fsck/journal.c"
 #define RO_JNL_PART2
@@ -68,5 +85,20 @@ void h_run_ro(void)
 	CHECK(CTX.fs == &FS && FS.flags == IN.fs_flags && CTX.options == IN.options && FS.super == &SB && FS.io == &FSCH,
 	      "read-only: context and filesystem handle unchanged");
 	CHECK(((unsigned char *)&SB)[verif_k] == IN.sb[verif_k], "read-only: in-memory superblock unchanged");
+	REACH("end");
+}
+
+/* e2fsck_move_ext3_journal(): "If the filesystem is opened read-only, or there is no journal, then do nothing."
+ * (called from check_super_block() unconditionally: the guard proved here is the only one) */
+void h_move_ro(void)
+{
+	LOAD_IN();
+	ro_build();
+	ASSUME(RO);
+	ASSUME(verif_k < 1024);
+	e2fsck_move_ext3_journal(&CTX);
+	CHECK(g_read_inode == 0 && g_write_inode == 0 && ro_mon.writes == 0, "read-only: returns before the journal inode is even read");
+	CHECK(FS.flags == IN.fs_flags && CTX.options == IN.options, "read-only: handle flags unchanged (not marked dirty)");
+	CHECK(((unsigned char *)&SB)[verif_k] == IN.sb[verif_k], "read-only: in-memory superblock unchanged (no s_jnl_blocks backup)");
 	REACH("end");
 }
